@@ -926,3 +926,115 @@ Section Recover.
     - rewrite E. reflexivity.
   Qed.
 End Recover.
+
+(* ================================================================== wrap_xr produces a geo-referenced array *)
+Lemma crs_dims_cases c : crs_dims c = ("y", "x") \/ crs_dims c = ("latitude", "longitude").
+Proof. destruct c as [[i []]|]; simpl; auto. Qed.
+
+Definition name_ok (name : option string) (yd xd : string) : Prop :=
+  match name with
+  | Some n => n <> yd /\ n <> xd /\ n <> "time" /\ n <> "band"
+  | None => True
+  end.
+Definition clean_attrs (a : attrs) : Prop :=
+  lookup "grid_mapping" a = None /\ lookup "crs" a = None /\ lookup "crs_wkt" a = None.
+
+Lemma aset_fresh {V} k (v : V) l : lookup k l = None -> aset k v l = l ++ [(k, v)].
+Proof.
+  induction l as [|(k', v') l IH]; simpl; auto.
+  destruct (String.eqb k k'); [discriminate|]. intros H; rewrite IH; auto.
+Qed.
+
+Lemma lookup_app {V} k (a b : list (string * V)) :
+  lookup k (a ++ b) = match lookup k a with Some v => Some v | None => lookup k b end.
+Proof. induction a as [|(ka, va) a IH]; simpl; auto. destruct (String.eqb k ka); auto. Qed.
+
+Lemma eqb_neq a b : a <> b -> String.eqb a b = false.
+Proof. intros N; destruct (String.eqb a b) eqn:E; auto. apply String.eqb_eq in E; contradiction. Qed.
+
+(** the object [wrap_xr] assembles around the two label coordinates and the optional CRS coordinate *)
+Definition wrapped (yd xd : string) (cy cx : coord) (ccn : option (string * coord)) (ny nx : Z)
+           (ntime nband : option Z) (name : option string) (at_ : attrs) : xobj :=
+  let cs := [(yd, cy); (xd, cx)] in
+  let cs := match ccn with Some p => aset (fst p) (snd p) cs | None => cs end in
+  let cs := match ntime with Some _ => aset "time" (Coord ["time"] [] [] None) cs | None => cs end in
+  let cs := match nband with Some _ => aset "band" (Coord ["band"] [] [] None) cs | None => cs end in
+  XObj false
+       (match ntime with Some n => [("time", n)] | None => [] end
+          ++ [(yd, ny); (xd, nx)] ++ match nband with Some n => [("band", n)] | None => [] end)
+       name at_ cs [].
+
+Lemma wrapped_georef yd xd fyl fxl ay ax Py P ccn ny nx ntime nband name at_ :
+  ((yd, xd) = ("y", "x") \/ (yd, xd) = ("latitude", "longitude")) ->
+  name_ok name yd xd -> clean_attrs at_ -> 0 <= ny -> 0 <= nx ->
+  match ccn with
+  | Some p => name = Some (fst p) /\ co_dims (snd p) = [] /\ is_spatial_ref (snd p) = true
+  | None => True
+  end ->
+  georef yd xd fyl fxl ay ax Py P name ccn (iota ny) (iota nx)
+         (wrapped yd xd (Coord [yd] (map fyl (iota ny)) ay Py) (Coord [xd] (map fxl (iota nx)) ax P)
+                  ccn ny nx ntime nband name at_).
+Proof.
+  intros Hd Hn Ha Hny Hnx Hc.
+  set (cy := Coord [yd] (map fyl (iota ny)) ay Py). set (cx := Coord [xd] (map fxl (iota nx)) ax P).
+  assert (Dyx : yd <> xd /\ yd <> "time" /\ yd <> "band" /\ xd <> "time" /\ xd <> "band").
+  { destruct Hd as [E|E]; injection E as -> ->; repeat split; discriminate. }
+  destruct Dyx as (D1 & D2 & D3 & D4 & D5).
+  (* the coordinate list, explicitly *)
+  set (tailc := match ccn with Some p => [(fst p, snd p)] | None => [] end
+                ++ match ntime with Some _ => [("time", Coord ["time"] [] [] None)] | None => [] end
+                ++ match nband with Some _ => [("band", Coord ["band"] [] [] None)] | None => [] end).
+  assert (Ecs : x_coords (wrapped yd xd cy cx ccn ny nx ntime nband name at_) = [(yd, cy); (xd, cx)] ++ tailc).
+  { assert (L2 : forall k, k <> yd -> k <> xd -> lookup k [(yd, cy); (xd, cx)] = None).
+    { intros k K1 K2; cbn [lookup]. rewrite (eqb_neq k yd K1), (eqb_neq k xd K2). reflexivity. }
+    unfold wrapped, tailc; cbn [x_coords].
+    set (ct := Coord ["time"] [] [] None). set (cb := Coord ["band"] [] [] None).
+    destruct ccn as [[n cc]|]; cbn [fst snd].
+    - destruct Hc as (-> & _ & _). destruct Hn as (N1 & N2 & N3 & N4).
+      rewrite (aset_fresh n cc) by (apply L2; auto).
+      simpl in N1, N2, N3, N4.
+      assert (Ft : lookup "time" ([(yd, cy); (xd, cx)] ++ [(n, cc)]) = None).
+      { rewrite lookup_app, L2 by congruence. cbn [lookup]. rewrite (eqb_neq "time" n) by congruence. reflexivity. }
+      assert (Fb : forall l, lookup "band" l = None -> lookup "band" (l ++ [("time", ct)]) = None).
+      { intros l Hl. rewrite lookup_app, Hl. reflexivity. }
+      assert (Fb0 : lookup "band" ([(yd, cy); (xd, cx)] ++ [(n, cc)]) = None).
+      { rewrite lookup_app, L2 by congruence. cbn [lookup]. rewrite (eqb_neq "band" n) by congruence. reflexivity. }
+      destruct ntime, nband.
+      + rewrite (aset_fresh "time" ct) by exact Ft. rewrite (aset_fresh "band" cb) by (apply Fb; exact Fb0).
+        rewrite <- ?app_assoc. reflexivity.
+      + rewrite (aset_fresh "time" ct) by exact Ft. rewrite <- ?app_assoc. reflexivity.
+      + rewrite (aset_fresh "band" cb) by exact Fb0. rewrite <- ?app_assoc. reflexivity.
+      + rewrite <- ?app_assoc. reflexivity.
+    - assert (Ft : lookup "time" [(yd, cy); (xd, cx)] = None) by (apply L2; congruence).
+      assert (Fb0 : lookup "band" [(yd, cy); (xd, cx)] = None) by (apply L2; congruence).
+      assert (Fb : lookup "band" ([(yd, cy); (xd, cx)] ++ [("time", ct)]) = None).
+      { rewrite lookup_app, Fb0. reflexivity. }
+      destruct ntime, nband.
+      + rewrite (aset_fresh "time" ct) by exact Ft. rewrite (aset_fresh "band" cb) by exact Fb.
+        rewrite <- ?app_assoc. reflexivity.
+      + rewrite (aset_fresh "time" ct) by exact Ft. reflexivity.
+      + rewrite (aset_fresh "band" cb) by exact Fb0. reflexivity.
+      + reflexivity. }
+  constructor.
+  - reflexivity.
+  - unfold wrapped; simpl. destruct Hd as [E|E]; injection E as -> ->; destruct ntime, nband; reflexivity.
+  - unfold wrapped; simpl. rewrite zlen_iota.
+    destruct ntime; simpl; rewrite ?(eqb_neq yd "time") by auto; rewrite String.eqb_refl; f_equal; lia.
+  - unfold wrapped; simpl. rewrite zlen_iota.
+    destruct ntime; simpl; rewrite ?(eqb_neq xd "time") by auto;
+      rewrite (eqb_neq xd yd) by congruence; rewrite String.eqb_refl; f_equal; lia.
+  - rewrite Ecs. simpl. rewrite String.eqb_refl. reflexivity.
+  - rewrite Ecs. simpl. rewrite (eqb_neq xd yd) by congruence. rewrite String.eqb_refl. reflexivity.
+  - right; reflexivity.
+  - exact Ha.
+  - rewrite Ecs. unfold tailc. simpl.
+    destruct ccn as [[n cc]|]; simpl in *.
+    + destruct Hc as (_ & _ & Hs). rewrite Hs. destruct ntime, nband; reflexivity.
+    + destruct ntime, nband; reflexivity.
+  - destruct name as [n|]; auto. rewrite Ecs. simpl in Hn. destruct Hn as (N1 & N2 & N3 & N4).
+    simpl. rewrite (eqb_neq n yd N1), (eqb_neq n xd N2). unfold tailc.
+    destruct ccn as [[n' cc]|]; simpl in *.
+    + destruct Hc as (E & _ & _). injection E as <-. rewrite String.eqb_refl. reflexivity.
+    + destruct ntime, nband; simpl; rewrite ?(eqb_neq n "time"), ?(eqb_neq n "band") by auto; reflexivity.
+  - destruct ccn as [[n cc]|]; simpl in *; tauto.
+Qed.
